@@ -339,6 +339,9 @@ func load(T types.Type, addr *value) value {
 		}
 		return a
 	default:
+		if raceOn {
+			recordAccess(addr, false, false)
+		}
 		return *addr
 	}
 }
@@ -360,6 +363,9 @@ func store(T types.Type, addr *value, v value) {
 		}
 	default:
 		logStore(addr)
+		if raceOn {
+			recordAccess(addr, true, false)
+		}
 		*addr = v
 	}
 }
